@@ -348,7 +348,19 @@ def _dominates(x, y):
 
 
 def geo_eval(n, env):
-    n = A.strip(n)
+    # a narrowing conversion of a computed value can wrap: the lower bounds survive it only if the value was clamped into the
+    # target's range before (widening conversions and conversions of plain variables are the identity)
+    while isinstance(n, dict) and n.get('k') == 'cast':
+        tw, fw = A.width(n.get('t', '')), A.width(n.get('from', ''))
+        sub = n.get('sub')
+        if tw and fw and tw < fw and n.get('cv') is None:
+            inner = geo_eval(sub, env)
+            has_arith = any(x.get('k') == 'bin' and x.get('op') in ('+', '*', '<<', '-') for x in walk(sub or {}))
+            tmax = (1 << tw) - 1
+            if has_arith and not (inner.clamp is not None and inner.clamp <= tmax):
+                return Val([], None, inner.clamp)
+            return inner
+        n = sub
     if not isinstance(n, dict):
         return Val()
     if n.get('cv') is not None and n.get('k') != 'ref':
